@@ -38,7 +38,9 @@ def run_shards(prop, tier, seed, specs, timeout):
                 out = os.path.join(tmp, "shard%d.json" % i)
                 cmd = [sys.executable, "-m", "twverif.shard", prop, tier, str(seed), json.dumps(spec), out]
                 errf = open(os.path.join(tmp, "shard%d.err" % i), "w")
-                p = subprocess.Popen(cmd, env=env, stdout=errf, stderr=subprocess.STDOUT, cwd=HOME)
+                # interpreter dimension: PYTHONOPTIMIZE reaches the shard and every process it starts
+                env_i = dict(env, PYTHONOPTIMIZE=str(spec["pyopt"])) if spec.get("pyopt") else env
+                p = subprocess.Popen(cmd, env=env_i, stdout=errf, stderr=subprocess.STDOUT, cwd=HOME)
                 running[i] = (p, out, time.time(), errf, spec)
             done = []
             for i, (p, out, t0, errf, spec) in running.items():
@@ -74,6 +76,27 @@ def run_shards(prop, tier, seed, specs, timeout):
         import shutil
         shutil.rmtree(tmp, ignore_errors=True)
     return reports
+
+
+OPT_SHARDS = {"quick": 6, "thorough": 16}
+OPT_OFFSET = 50_000_000
+
+
+def with_optimized_interpreter(specs, tier):
+    """The same workload under `python -O` (assert statements and `if __debug__` blocks compiled away): one extra
+    shard per distinct kind of the plan, on case indices of its own where the spec has a range."""
+    extra, seen = [], set()
+    for sp in specs:
+        k = sp.get("kind", "")
+        if k in seen or len(extra) >= OPT_SHARDS[tier]:
+            continue
+        seen.add(k)
+        e = dict(sp, pyopt=1)
+        if isinstance(e.get("start"), int) and isinstance(e.get("count"), int):
+            e["start"] += OPT_OFFSET
+            e["count"] = max(1, min(e["count"], 400 if tier == "quick" else 4000))
+        extra.append(e)
+    return specs + extra
 
 
 def merge(reports):
@@ -126,6 +149,8 @@ def check(prop, tier, seed):
     t0 = time.time()
     mod = importlib.import_module("twverif.checks." + prop.lower())
     specs = mod.plan(tier, seed)
+    if not getattr(mod, "NO_OPT_SHARDS", False):
+        specs = with_optimized_interpreter(specs, tier)
     timeout = getattr(mod, "TIMEOUT", DEFAULT_TIMEOUT).get(tier, DEFAULT_TIMEOUT[tier])
     reports = run_shards(prop, tier, seed, specs, timeout)
     m = merge(reports)
@@ -215,6 +240,10 @@ def replay(prop, path):
         v = json.load(f)
     mod = importlib.import_module("twverif.checks." + prop.lower())
     case = v["case"]
+    if isinstance(case, dict) and case.get("python_O") and not sys.flags.optimize:
+        # found under `python -O`: replay under the same interpreter flags
+        return subprocess.call([sys.executable, "-O", "-m", "twverif.cli", prop, "--replay", path],
+                               env=dict(os.environ, PYTHONOPTIMIZE="1"), cwd=HOME)
     ctx = Ctx(prop, "replay", int(case.get("seed", 0)), case, replaying=True)
     print("replaying %s case %s" % (prop, json.dumps(case)[:400]))
     mod.replay(ctx, case)
